@@ -41,12 +41,17 @@ CbcUnpadCases == \A nb \in 1..3 : \A p \in {0, 1, 2, 15, 16, 17, 32, 255} : \A c
     LET ok == p >= 1 /\ p <= 16 /\ (c = 0 \/ c > p) IN
     Emit([fn |-> "cbcunpad", s |-> <<>>, a |-> <<nb, p, c>>, out |-> IF ok THEN <<1, 16 * nb - p>> ELSE <<0, 0>>])
 \* lengths, aliasing layouts ("fresh": separate buffers, "shared": dst and src start at the same address), key sizes
-CbcCases == \A n \in 0..49 : \A k \in {16, 24, 32} : \A lay \in {"fresh", "shared"} :
+\* ("pool": dst and src are disjoint windows of one allocation; "shift": src lies 16 bytes into the buffer dst starts at)
+CbcCases == \A n \in 0..49 : \A k \in {16, 24, 32} : \A lay \in {"fresh", "shared", "pool", "shift"} :
     Emit([fn |-> "cbc", s |-> <<>>, a |-> <<n, k, lay>>, out |-> <<n + 16 - (n % 16), (n \div 16) + 1, 16 - (n % 16)>>])
 CbcBadLen == \A n \in {0, 1, 15, 17, 31, 33} : Emit([fn |-> "cbcbadlen", s |-> <<>>, a |-> <<n>>, out |-> <<>>])
 KeyCases == \A k \in {0, 1, 15, 17, 23, 25, 31, 33, 64} : Emit([fn |-> "badkey", s |-> <<>>, a |-> <<k>>, out |-> <<>>])
+\* sequences of calls whose keys are related: the same bytes at another length (K, then K followed by zero bytes), valid
+\* and invalid lengths alternating.  Every call must behave as if it were the only one.
+KeySeqs == {<<16, 24>>, <<16, 32>>, <<24, 32>>, <<32, 16>>, <<16, 17>>, <<16, 31>>, <<24, 25>>, <<16, 24, 16, 32>>, <<32, 33, 16>>}
+KeySeqCases == \A ks \in KeySeqs : \A mode \in {"cbc", "gcm"} : Emit([fn |-> "keyseq", s |-> ks, a |-> <<mode>>, out |-> <<>>])
 \* GCM: Open(Seal(x)) = x, output = standard Seal, any single-bit change of ciphertext / tag / nonce / aad => failure
-GcmCases == \A n \in {0, 1, 15, 16, 17, 33} : \A nl \in {12, 1, 3, 13, 16} : \A al \in {0, 5} : \A k \in {16, 24, 32} : \A lay \in {"fresh", "shared"} :
+GcmCases == \A n \in {0, 1, 15, 16, 17, 33} : \A nl \in {12, 1, 3, 13, 16} : \A al \in {0, 5} : \A k \in {16, 24, 32} : \A lay \in {"fresh", "shared", "pool"} :
     Emit([fn |-> "gcm", s |-> <<>>, a |-> <<n, nl, al, k, lay>>, out |-> <<n + 16>>])
 GcmTamper == \A n \in {0, 1, 17} : \A nl \in {12, 16} : \A al \in {0, 5} :
     \A part \in {"ct", "tag", "nonce", "aad"} : \A pos \in {"first", "mid", "last"} : \A bit \in {0, 7} :
@@ -60,6 +65,7 @@ ASSUME CbcUnpadCases
 ASSUME CbcCases
 ASSUME CbcBadLen
 ASSUME KeyCases
+ASSUME KeySeqCases
 ASSUME GcmCases
 ASSUME GcmTamper
 Init == x = 0
